@@ -33,8 +33,9 @@ M = {
  "c01-reorg-count-unchecked": (SLSP, "        if reorg_count != last_n_blocks {", "        if false && reorg_count != last_n_blocks {", ["C01", "C04"]),
  "c03-skip-inputs": (STORAGE, "                                if scripts.contains(&(script.clone(), ScriptType::Lock)) {\n                                    filter_matched = true;\n                                    // delete utxo", "                                if false && scripts.contains(&(script.clone(), ScriptType::Lock)) {\n                                    filter_matched = true;\n                                    // delete utxo", ["C03", "C13"]),
  "c03-update-block-number-off-by-one": (SYNC, "                        .update_block_number(start_number + blocks_count - 1);", "                        .update_block_number(start_number + blocks_count);", ["C03", "C09"]),
- "c04-rollback-without-plus-one": (LC, "                    let rollback_to = start_number_opt.unwrap_or(to_number) + 1;", "                    let rollback_to = start_number_opt.unwrap_or(to_number);", ["C04"]),
- "c04-no-restore-of-spent-cells": (STORAGE, "                                batch\n                                    .put_kv(key, input.previous_output().tx_hash().as_slice())\n                                    .expect(\"batch put should be ok\");\n                            };", "                                let _ = key;\n                            };", ["C04"]),
+ "c04-rollback-without-plus-one": (LC, "                    let rollback_to = to_number + 1;", "                    let rollback_to = to_number;", ["C04"]),
+ "c04-rollback-one-block-short": (LC, "                    let rollback_to = to_number + 1;", "                    let rollback_to = to_number + 2;", ["C04"]),
+ "c04-no-restore-of-spent-cells": (STORAGE, "                            batch\n                                .put_kv(key, input.previous_output().tx_hash().as_slice())\n                                .expect(\"batch put should be ok\");\n                        };", "                            let _ = key;\n                        };", ["C04"]),
  "c05-tau-too-strict": (SLSP, "                for _ in 0..epochs_switch_count {\n                    end_max = end_max.saturating_mul(&tau_u256);\n                }", "                for _ in 1..epochs_switch_count {\n                    end_max = end_max.saturating_mul(&tau_u256);\n                }", ["C14", "C05"]),
  "c07-quorum-floor": (PEERS, "        let required_peers_count = ((self.get_max_outbound_peers() + 1) / 2) as usize;", "        let required_peers_count = (self.get_max_outbound_peers() / 2).max(1) as usize;", ["C07"]),
  "c07-no-retain": (LC, "                        if count_max != peers_with_data.len() {\n                            peers_with_data.retain(|_, (_, check_points)| {\n                            matches!(check_points.get(index), Some(tmp) if *tmp == cp)\n                        });\n                        }", "", ["C07"]),
